@@ -33,8 +33,21 @@ def check(run, views, tier):
         _gr.r_depth(run, F, _lj(_os.path.join(_V, "tables", "panic.json")))
         run.explanation, run.trusted, run.not_decided = _saved
         from .. import readerrules as _rr
+        from .. import codecrules as _cr
         _rr.r_trace_display(run, F)
         _rr.r_token(run, F)
+        from .c04 import check_parser_no_add
+        check_parser_no_add(run, F)
+        # the rest of what "parse(encode(m)) == m" rests on: byte order, lossy text, exact reads, error discipline, and the container
+        # the parser fills and the encoder reads (C19's clauses)
+        _cr.r_be(run, F)
+        _nl = _rr.r_lossy(run, F)
+        run.floor("R-LOSSY", _nl, 13 if _rr.async_on(F) else 12, "lossy text conversions")
+        _rr.r_readexact(run, F)
+        _rr.r_propagate(run, F)
+        from ..engine import include as _inc
+        from . import c19 as _c19
+        _inc(run, _c19, {cfg: {"ipp": F}}, tier)
         n = cr.r_tagmap(run, F, T, check_registry=False)
         run.floor("R-TAGMAP", n, 19, "fixed-tag kinds")
         ne, nd = cr.r_layout(run, F, T, external=False, casts=True)
